@@ -786,18 +786,48 @@ def real_cases(chk, rng):
                         ref = "fci" if not uhf else ("fci-restricted-twin" if frozen is None else "ucasci")
                         cases.append(("%s-%s-%s-%s-g%d" % (name, SPIN_CLASS[spin], "uhf" if uhf else "rohf", cell, g),
                                       xyz, q, spin, "sto-3g", uhf, frozen, ref))
-    # extras: larger basis, interior / non-contiguous lists, per-spin lists (UHF), frozen_core keyword
+    # extras: the remaining documented constructor options, combined (at least) pairwise with reference type / spin / frozen form:
+    # basis {sto-3g, 6-31g, lanl2dz}, charge {0, +1, -1}, ecp, symmetry {True, "C2v"}, frozen forms {int, list, per-spin lists,
+    # "frozen_core"}; and molecules whose lowest Sz = 0 state is a TRIPLET component (Hund: equilateral H3-, bent CH2).
     tri = [("H", (0., 0., 0.)), ("H", (round(rng.uniform(0.8, 1.1), 6), 0., 0.)),
            ("H", (round(rng.uniform(0.3, 0.6), 6), round(rng.uniform(0.7, 1.0), 6), 0.))]
     lih = [("Li", (0., 0., 0.)), ("H", (0., 0., round(rng.uniform(1.3, 1.9), 6)))]
+    nah = [("Na", (0., 0., 0.)), ("H", (0., 0., round(rng.uniform(1.7, 2.1), 6)))]
+    side = round(rng.uniform(0.9, 1.2), 6)
+    h3m = [("H", (0., 0., 0.)), ("H", (side, 0., 0.)), ("H", (side / 2, round(side * 3 ** 0.5 / 2, 9), 0.))]
+    rch, ang = rng.uniform(1.05, 1.12), rng.uniform(2.2, 2.4)
+    ch2 = [("C", (0., 0., 0.)), ("H", (round(rch * np.sin(ang / 2), 6), 0., round(rch * np.cos(ang / 2), 6))),
+           ("H", (round(-rch * np.sin(ang / 2), 6), 0., round(rch * np.cos(ang / 2), 6)))]
+    a_ = rng.uniform(0.9, 1.05)
+    th = rng.uniform(1.7, 1.95)
+    h2o = [("O", (0., 0., 0.)), ("H", (round(a_, 6), 0., 0.)), ("H", (round(a_ * np.cos(th), 6), round(a_ * np.sin(th), 6), 0.))]
+    ecp = {"ecp": {"Na": "lanl2dz"}}
+    tgs = {"tags": ["spin0-triplet-ground-state"]}
+    h4s = chain(4, rng)
     cases += [
         ("H2-631g-frozen-interior-virtual", chain(2, rng), 0, 0, "6-31g", False, [2], "fci"),
         ("H2-uhf-stretched", chain(2, rng, 1.5, 2.2), 0, 0, "sto-3g", True, None, "fci-restricted-twin"),
         ("H3+-uhf-perspin-virtuals", tri, 1, 0, "sto-3g", True, [[2], [1]], "ccsd-2e"),
+        ("H3+-631g-symmetry-list", tri, 1, 0, "6-31g", False, [3, 4, 5], "fci", {"symmetry": True}),
+        ("H4+-631g-uhf-perspin", chain(4, rng), 1, 1, "6-31g", True, [[4, 5, 6, 7], [4, 5, 6, 7]], "ucasci"),
+        ("H4--rohf-frozen-virtual", chain(4, rng, 0.9, 1.4), -1, 1, "sto-3g", False, [0], "fci"),
+        ("H4--uhf", chain(4, rng, 0.9, 1.4), -1, 1, "sto-3g", True, None, "fci-restricted-twin"),
+        ("H4-symmetry", h4s, 0, 0, "sto-3g", False, None, "fci", {"symmetry": True}),
+        ("H4-symmetry-triplet-frozen", h4s, 0, 2, "sto-3g", False, [0], "fci", {"symmetry": True}),
+        ("H4-symmetry-uhf-triplet", h4s, 0, 2, "sto-3g", True, None, "fci-restricted-twin", {"symmetry": True}),
         ("LiH-frozen-core-keyword", lih, 0, 0, "sto-3g", False, "frozen_core", "fci"),
         ("LiH-frozen-0-3-5", lih, 0, 0, "sto-3g", False, [0, 3, 5], "fci"),
         ("LiH-triplet-frozen-0-4", lih, 0, 2, "sto-3g", False, [0, 4], "fci"),
+        ("LiH-triplet-rohf-int-1", lih, 0, 2, "sto-3g", False, 1, "fci"),
         ("LiH-uhf-int-1", lih, 0, 0, "sto-3g", True, 1, "ccsd-2e"),
+        ("LiH-uhf-symmetry-frozen-core-keyword", lih, 0, 0, "sto-3g", True, "frozen_core", "ccsd-2e", {"symmetry": True}),
+        ("H2O-symmetry-C2v-frozen", h2o, 0, 0, "sto-3g", False, [0, 1, 6], "fci", {"symmetry": "C2v"}),
+        ("NaH-ecp-rhf-frozen-4-9", nah, 0, 0, "lanl2dz", False, [4, 5, 6, 7, 8, 9], "fci", ecp),
+        ("NaH-ecp-uhf-perspin", nah, 0, 0, "lanl2dz", True, [[4, 5, 6, 7, 8, 9], [4, 5, 6, 7, 8, 9]], "ccsd-2e", ecp),
+        ("NaH+-ecp-rohf-doublet", nah, 1, 1, "lanl2dz", False, [3, 4, 5, 6, 7, 8, 9], "fci", ecp),
+        ("NaH-ecp-symmetry-rhf", nah, 0, 0, "lanl2dz", False, [3, 5, 6, 7, 8, 9], "fci", dict(ecp, symmetry=True)),
+        ("H3--equilateral-unfrozen", h3m, -1, 0, "sto-3g", False, None, "fci", tgs),
+        ("CH2-bent-frozen-0-1-6", ch2, 0, 0, "sto-3g", False, [0, 1, 6], "fci", tgs),
     ]
     if not quick:
         for k in range(2):
@@ -809,10 +839,15 @@ def real_cases(chk, rng):
         cases += [("LiH-frozen-0-4", lih2, 0, 0, "sto-3g", False, [0, 4], "fci"),
                   ("LiH+-rohf-frozen-core", lih2, 1, 1, "sto-3g", False, 1, "fci"),
                   ("LiH-uhf-perspin", lih2, 0, 0, "sto-3g", True, [[0, 5], [0, 4]], "ccsd-2e")]
-        a_ = rng.uniform(0.9, 1.05)
-        th = rng.uniform(1.7, 1.95)
-        h2o = [("O", (0., 0., 0.)), ("H", (round(a_, 6), 0., 0.)), ("H", (round(a_ * np.cos(th), 6), round(a_ * np.sin(th), 6), 0.))]
-        cases += [("H2O-frozen-core-and-virtual", h2o, 0, 0, "sto-3g", False, [0, 1, 6], "fci")]
+        cases += [("H2O-frozen-core-and-virtual", h2o, 0, 0, "sto-3g", False, [0, 1, 6], "fci"),
+                  ("H2O+-rohf-symmetry", h2o, 1, 1, "sto-3g", False, [0, 1, 6], "fci", {"symmetry": True}),
+                  ("CH2-bent-frozen-0-6", ch2, 0, 0, "sto-3g", False, [0, 6], "fci", tgs),
+                  ("CH2-bent-frozen-0", ch2, 0, 0, "sto-3g", False, [0], "fci", tgs),
+                  ("CH2-bent-uhf-frozen-0-1-6", ch2, 0, 0, "sto-3g", True, [[0, 1, 6], [0, 1, 6]], "ucasci", tgs),
+                  ("CH2-bent-symmetry-frozen-0-1-6", ch2, 0, 0, "sto-3g", False, [0, 1, 6], "fci", dict(tgs, symmetry=True)),
+                  ("LiH-lanl2dz-no-ecp", lih2, 0, 0, "lanl2dz", False, [0, 4, 5, 6, 7, 8, 9, 10], "fci"),
+                  ("NaH-ecp-rhf-g2", [("Na", (0., 0., 0.)), ("H", (0., 0., round(rng.uniform(1.7, 2.1), 6)))], 0, 0, "lanl2dz", False,
+                   [0, 5, 6, 7, 8, 9], "fci", ecp)]
     return cases
 
 
@@ -834,19 +869,33 @@ def random_rotation(n, rs):
     return q * np.sign(np.diag(r))
 
 
+def block_rotation(act, labels, rs):
+    """Random orthogonal matrix on the orbitals `act`; with symmetry labels only orbitals of the same irrep are mixed
+    (a molecule built with symmetry=True only accepts symmetry-adapted coefficients through its setter)."""
+    n = len(act)
+    if labels is None:
+        return random_rotation(n, rs)
+    r = np.eye(n)
+    for lab in sorted(set(labels[i] for i in act)):
+        idx = [k for k, i in enumerate(act) if labels[i] == lab]
+        r[np.ix_(idx, idx)] = random_rotation(len(idx), rs)
+    return r
+
+
 def rotated_coeff(mol, rs):
     """A copy of the current MO coefficients with a random orthogonal rotation among the active orbitals (per spin for UHF)."""
+    sym = getattr(mol, "mo_symm_ids", None) if mol.symmetry else None
     if mol.uhf:
         new = []
         for s_ in range(2):
             c = np.array(mol.mo_coeff[s_], dtype=float).copy()
             act = list(mol.active_mos[s_])
-            c[:, act] = c[:, act] @ random_rotation(len(act), rs)
+            c[:, act] = c[:, act] @ block_rotation(act, None if sym is None else list(sym[s_]), rs)
             new.append(c)
         return new
     c = np.array(mol.mo_coeff, dtype=float).copy()
     act = list(mol.active_mos)
-    c[:, act] = c[:, act] @ random_rotation(len(act), rs)
+    c[:, act] = c[:, act] @ block_rotation(act, None if sym is None else list(sym), rs)
     return c
 
 
@@ -940,8 +989,9 @@ def check_argument_route(chk, mol, cnew, tag, case):
     return fop_arg, n
 
 
-def struct_jobs(mol, mapping, utd, jobs, meta, tag, fop=None):
-    """Record the words of the code's qubit Hamiltonian, its reference vector and its sector basis; -> float coefficients."""
+def struct_jobs(mol, mapping, utd, jobs, meta, tag, fop=None, sector=None):
+    """Record the words of the code's qubit Hamiltonian, its reference vector and its sector basis; -> float coefficients.
+    sector: (n_alpha, n_beta) other than the target sector (diagnostics)."""
     qop, nq, ref, encode = qubit_artifacts(mol, mapping, utd, fop)
     terms = [(t, c) for t, c in qop.terms.items()]
     words = []
@@ -950,7 +1000,7 @@ def struct_jobs(mol, mapping, utd, jobs, meta, tag, fop=None):
         for q, l in t:
             w[q] = LETTER[l]
         words.append(w)
-    na, nb = mol.n_active_ab_electrons
+    na, nb = sector or mol.n_active_ab_electrons
     basis = [encode(d) for d in sector_dets(mol.n_active_sos, na, nb)]
     out = {}
     for kind, extra in (("sref", {"v": ref}), ("ssec", {"basis": basis})):
@@ -999,14 +1049,18 @@ def real_record(chk, cases, rs, only):
     from tangelo.algorithms.classical import FCISolver, CCSDSolver
     quick = chk.quick
     jobs, meta, recs = [], {}, []
-    for ci, (label, xyz, q, spin, basis, uhf, frozen, refkind) in enumerate(cases):
-        info = {"label": label, "xyz": xyz, "q": q, "spin": spin, "basis": basis, "uhf": uhf, "frozen": frozen, "ref": refkind}
+    for ci, cs in enumerate(cases):
+        label, xyz, q, spin, basis, uhf, frozen, refkind = cs[:8]
+        opts = dict(cs[8]) if len(cs) > 8 else {}
+        tags = opts.pop("tags", [])
+        info = {"label": label, "xyz": xyz, "q": q, "spin": spin, "basis": basis, "uhf": uhf, "frozen": frozen, "ref": refkind,
+                "opts": dict(opts, tags=tags)}
         try:
-            mol = SecondQuantizedMolecule(xyz, q, spin, basis=basis, uhf=uhf, frozen_orbitals=copy.deepcopy(frozen))
+            mol = SecondQuantizedMolecule(xyz, q, spin, basis=basis, uhf=uhf, frozen_orbitals=copy.deepcopy(frozen), **copy.deepcopy(opts))
             if refkind == "fci":
                 e_fci = FCISolver(mol).simulate()
             elif refkind == "fci-restricted-twin":
-                e_fci = FCISolver(SecondQuantizedMolecule(xyz, q, spin, basis=basis, uhf=False, frozen_orbitals=None)).simulate()
+                e_fci = FCISolver(SecondQuantizedMolecule(xyz, q, spin, basis=basis, uhf=False, frozen_orbitals=None, **copy.deepcopy(opts))).simulate()
             elif refkind == "ucasci":
                 e_fci = ucasci_energy(mol)
             else:
@@ -1027,6 +1081,12 @@ def real_record(chk, cases, rs, only):
         for mapping, utd in encs:
             ids, coefs, dim = struct_jobs(mol, mapping, utd, jobs, meta, (ci, mapping, utd, "hf"))
             rec["runs"].append({"mapping": mapping, "utd": utd, "ids": ids, "coefs": coefs, "dim": dim, "rot": False})
+        if "spin0-triplet-ground-state" in tags and spin == 0 and mol.n_active_ab_electrons[1] >= 1:
+            # vacuity diagnostic, independent of the classical solver: the Sz = +1 sector of the same Hamiltonian (JW);
+            # its minimum coincides with the Sz = 0 minimum iff the Sz = 0 ground state is a component of a multiplet S >= 1
+            na_, nb_ = mol.n_active_ab_electrons
+            ids, coefs, dim = struct_jobs(mol, "JW", False, jobs, meta, (ci, "JW", False, "sz1"), sector=(na_ + 1, nb_ - 1))
+            rec["runs"].append({"mapping": "JW", "utd": False, "ids": ids, "coefs": coefs, "dim": dim, "rot": "sz1"})
         recs.append(rec)
     # rotated orbitals (after all unrotated artefacts have been recorded): argument route first, then the setter
     for ci, rec in enumerate(recs):
@@ -1081,6 +1141,9 @@ def real_evaluate(chk, recs, judged):
                               "%s: H_q leaves the encoded (n_alpha,n_beta) sector (%.2e) or block not Hermitian (%.2e)" % (info["label"], leak, herm), case)
                 continue
             e0 = float(np.linalg.eigvalsh(H)[0])
+            if run_["rot"] == "sz1":
+                rec["e_sz1"] = e0
+                continue
             if not run_["rot"]:
                 e_ref = contract_ref(run_["coefs"], e_j)
                 d = abs(e_ref - rec["e_mf"])
@@ -1093,8 +1156,12 @@ def real_evaluate(chk, recs, judged):
                 worst["fci"] = max(worst["fci"], d)
                 n_fci += 1
                 if d > 1e-7:
-                    chk.violation("real:%s:%s:lowest-sector-eigenvalue:%s" % (ref, frz, enc),
-                                  "%s: lowest sector eigenvalue %.10f, classical reference (%s) %.10f" % (info["label"], e0, info["ref"], rec["e_fci"]), case)
+                    key = "real:%s:%s:lowest-sector-eigenvalue:%s" % (ref, frz, enc)
+                    tags = info.get("opts", {}).get("tags", [])
+                    if "spin0-triplet-ground-state" in tags and info["spin"] == 0 and e0 < rec["e_fci"] and info["ref"] in ("fci", "fci-restricted-twin"):
+                        # input class: the lowest Sz = 0 state of the active space is a triplet component
+                        key = "real:%s:%s:spin0-triplet-ground-state:fci-singlet-only:%s" % (ref, "unfrozen" if info["frozen"] is None else "frozen", enc)
+                    chk.violation(key, "%s: lowest sector eigenvalue %.10f, classical reference (%s) %.10f" % (info["label"], e0, info["ref"], rec["e_fci"]), case)
                 rec.setdefault("e0", e0)
             else:
                 d = abs(e0 - rec.get("e0", rec["e_fci"]))
@@ -1104,6 +1171,16 @@ def real_evaluate(chk, recs, judged):
                     chk.violation("real:%s:%s:rotation-invariance:%s-route:%s" % (ref, frz, run_["rot"], enc),
                                   "%s: lowest sector eigenvalue %.10f after a random active-orbital rotation (%s route), %.10f before"
                                   % (info["label"], e0, run_["rot"], rec.get("e0", rec["e_fci"])), case)
+    trip = {}
+    for rec in recs:
+        if "e_sz1" in rec and "e0" in rec:
+            k = "unfrozen" if rec["info"]["frozen"] is None else "frozen"
+            trip.setdefault(k, [0, 0])
+            trip[k][0] += 1
+            trip[k][1] += abs(rec["e_sz1"] - rec["e0"]) < 1e-6
+    if trip and not getattr(chk, "_c04_replay", False) and any(v[1] == 0 for v in trip.values()) :
+        raise tlc.TLCError("vacuity: no molecule tagged spin0-triplet-ground-state has a triplet Sz = 0 ground state %s" % trip)
+    chk.part("D_triplet_ground_state_cases", **{k: {"molecules": v[0], "sz1_minimum_equals_sz0_minimum": v[1]} for k, v in trip.items()})
     chk.part("D_numeric_tail_NOT_model_checked", molecules=len(recs), mean_field_contractions=n_ref, fci_comparisons=n_fci,
              rotation_comparisons=n_rot, argument_vs_setter_comparisons=sum(r.get("arg_comparisons", 0) for r in recs),
              cells=sorted({"%s/%s/%s" % ("uhf" if r["info"]["uhf"] else "rohf", SPIN_CLASS.get(r["info"]["spin"], r["info"]["spin"]),
@@ -1215,8 +1292,9 @@ def replay(chk, rec):
         c2 = check.Check("C04", ["quick"])
         c2.known = []
         info = case["info"]
+        c2._c04_replay = True
         only = [(case["mapping"], case["utd"])] if "mapping" in case else None
-        run_real(c2, [(info["label"], info["xyz"], info["q"], info["spin"], info["basis"], info["uhf"], info["frozen"], info["ref"])],
+        run_real(c2, [(info["label"], info["xyz"], info["q"], info["spin"], info["basis"], info["uhf"], info["frozen"], info["ref"], info.get("opts", {}))],
                  np.random.RandomState(chk.seed + 4), only, "c04/replay_d")
         for v in c2.violations:
             print("violation:", v[0], v[1])
